@@ -31,7 +31,9 @@ TRUSTED = [
 ]
 ASSUMPTIONS = [
     "COMMIT, ROLLBACK and SAVEPOINT never fail at the database; the only database error is "
-    "'no such savepoint'; no disconnects/invalidation; single thread; no two-phase",
+    "'no such savepoint'; no disconnects/invalidation; single thread; no two-phase "
+    "(so e.g. a DBAPI rollback() that itself fails, after which RootTransaction._close_impl skips "
+    "cancelling the savepoint objects, is outside the modelled alphabet)",
     "with-blocks in the theorems' guarded region are used as the with statement uses them "
     "(LIFO, one entry at a time)",
 ]
@@ -184,6 +186,16 @@ class Ref:
         fr, _ = self._below(k)
         if self.live(k):
             self.stack = fr
+
+    def follow_refused(self, op):
+        """oracle-follow only: the implementation refused [op] before it reached the database.
+        A refused commit/rollback/close/__exit__ of a savepoint still ends the handle (the finally
+        clauses of _close_impl/_do_commit) and __exit__ still leaves the with-block; the work stays.
+        A refused begin/begin_nested/execute does nothing."""
+        if op[0] in (HCOMMIT, HROLLBACK, HCLOSE, HEXIT):
+            self.end_keeping_work(op[1])
+        if op[0] == HEXIT:
+            self.ctx = self.ctx[1:]
 
     # guard clauses (None = inside the guarded region, else the name of the excluded region)
     def gstep(self, op):
@@ -527,7 +539,7 @@ def gen_cases(rng, tier):
         rng.shuffle(e3)
         rng.shuffle(es)
         hist = e3 + es[:300]
-    nrand = 6000 if thorough else 250
+    nrand = 6000 if thorough else 200
     maxlen = 25 if thorough else 9
     for _ in range(nrand):
         hist.append((_rand_uniform(rng, rng.randint(4, maxlen)), "random-uniform"))
@@ -537,7 +549,7 @@ def gen_cases(rng, tier):
         hist.append((_rand_out_of_order(rng, min(maxlen, 12)), "random-out-of-order"))
     cases = [{"in": [0, h], "kind": k} for h, k in hist]
     # the oracle's reference model against the Coq reference model (no database involved)
-    step = 1 if thorough else 4
+    step = 1 if thorough else 5
     cases += [{"in": [2, h], "kind": "spec"} for h, _ in hist[::step]]
     cases += [{"in": [1, s], "kind": "db"} for s in _db_scripts(rng, tier)]
     return cases
@@ -854,13 +866,19 @@ def _judge(ops, obs):
             msg = "step %d %s raised (code %d) although the reference model performs it" % (i, name, code)
             if reg in ("a", "c") and code == 1 and r.ctx_bad():
                 note("c", msg)
-                r.end_keeping_work(op[1])
                 if "c" not in open_regions:
                     open_regions.append("c")
+                if reg == "a" and "a" not in open_regions:
+                    open_regions.append("a")  # the handles above it stay active (stale) as well
             elif code in (2, 4) and open_regions:
-                note(open_regions[0], msg)  # refused: the reference model does not perform it either
+                note(open_regions[0], msg)
+            elif "a" in open_regions and op[0] >= HCOMMIT and not r.live(op[1]):
+                # rollback/close/__exit__ of a stale (for the implementation still active) savepoint
+                # handle refused before reaching the database; for the reference model it is ended
+                note("a", msg)
             else:
                 return msg, explained
+            r.follow_refused(op)
         else:
             r = proper
             if reg == "a" and "a" not in open_regions:
